@@ -2727,10 +2727,24 @@ class VM:
                     return source_map[ip]
         return None, None
 
+    def _is_error_object(self, value: JSValue) -> bool:
+        """True for objects that inherit from Error.prototype."""
+        error = self.globals.get("Error")
+        if not isinstance(value, JSObject) or not isinstance(error, JSObject):
+            return False
+        error_prototype = error.get("prototype")
+        proto = value._prototype
+        while proto is not None:
+            if proto is error_prototype:
+                return True
+            proto = proto._prototype
+        return False
+
     def _throw(self, exc: JSValue) -> None:
         """Throw an exception."""
-        # Try to add source location to error object
-        if isinstance(exc, JSObject):
+        # Error objects record where they were thrown; any other value is
+        # handed to the handler exactly as it was thrown
+        if self._is_error_object(exc):
             line, column = self._get_source_location()
             if line is not None:
                 exc.set("lineNumber", line)
